@@ -13,7 +13,9 @@
 (* and differing from the repository URL in exactly one of scheme, host,    *)
 (* port, host case, userinfo, default-port spelling, path) x pass-          *)
 (* credentials x "the chart URL answers with a redirect to an unrelated     *)
-(* domain".  The specification plays the request flow of every call path   *)
+(* domain" x TLS settings on the repository entry x (dependency update of   *)
+(* a chart with two dependencies from two repositories) the order of the    *)
+(* two.  The specification plays the request flow of every call path       *)
 (* as the code does it (which getter options are in force for which         *)
 (* request) and records every request with the Authorization decision.      *)
 (* TLC enumerates all cases and all flows, checks CredsOK on the model's    *)
@@ -27,6 +29,7 @@ CONSTANTS Repos,       \* set of repository URLs
           Paths,       \* set of call paths
           Variants,    \* set of chart URL forms
           Redirects,   \* subset of BOOLEAN
+          TLSKinds,    \* TLS settings a repository entry may carry: "none", "ca", "cert", "insecure"
           PullGated    \* FALSE: Pull.Run as pinned (no origin test, lead L17); TRUE: Pull.Run tests the origin like LocateChart
 
 DefaultPort(s) == IF s = "https" THEN 443 ELSE 80
@@ -67,18 +70,31 @@ RedirTarget == [scheme |-> "http", host |-> "cdn", upper |-> FALSE, port |-> 0, 
 \* Go's net/http keeps Authorization across a redirect only to the same domain or a sub-domain
 RelatedDomain(from, to) == to.host = from.host \/ (from.host = "repo" /\ to.host = "sub")
 
-NeedsIndexFetch(p) == p \in {"locate", "pull", "manager"}
+NeedsIndexFetch(p) == p \in {"locate", "pull", "manager", "manager2"}
 FetchesProv(p)     == p # "getter"
 
+\* a second, public repository (no credentials) that a chart may depend on besides the private one
+PublicRepo == [scheme |-> "http", host |-> "public", upper |-> FALSE, port |-> 0, user |-> "", dir |-> "charts"]
+
 VARIABLES cfg,     \* the case
-          pc,      \* "index" | "chart" | "redirect" | "prov" | "done"
+          pc,      \* position in the request flow of the case
           reqs     \* requests sent so far: [kind, url, auth]
 vars == <<cfg, pc, reqs>>
 
-Cases == [path : Paths, repo : Repos, variant : Variants, passAll : BOOLEAN, redirect : Redirects]
+\* A case.  tls: TLS settings on the repository entry (none / a CA file / ...): they must not change
+\* where credentials go.  order: path "manager2" updates a chart with TWO dependencies, one from the
+\* private repository and one from the public one, in either order; what is configured for one
+\* dependency must not leak into the request for the other.
+Cases ==
+       [path : Paths \ {"manager2"}, repo : Repos, variant : Variants, passAll : BOOLEAN, redirect : Redirects,
+        tls : {"none"}, order : {"single"}]
+  \cup [path : Paths \cap {"dl_name", "dl_url", "manager"}, repo : Repos, variant : Variants, passAll : BOOLEAN,
+        redirect : Redirects, tls : TLSKinds \ {"none"}, order : {"single"}]
+  \cup [path : Paths \cap {"manager2"}, repo : Repos, variant : Variants, passAll : BOOLEAN, redirect : {FALSE},
+        tls : TLSKinds, order : {"privfirst", "pubfirst"}]
 
 Init == /\ cfg \in Cases
-        /\ pc = IF NeedsIndexFetch(cfg.path) THEN "index" ELSE "chart"
+        /\ pc = 1
         /\ reqs = <<>>
 
 Chart == ChartOf(cfg.repo, cfg.variant)
@@ -97,35 +113,35 @@ ChartAuth ==
     [] cfg.path = "locate"   -> gate                \* explicit test in LocateChart, then WithURL(chart URL)
     [] cfg.path = "pull"     -> IF PullGated THEN gate ELSE TRUE
                                                     \* Pull.Run: no test, WithURL(chart URL) compares the URL with itself
-    [] cfg.path = "manager"  -> IF FoundInIndex THEN gate ELSE TRUE
+    [] cfg.path \in {"manager", "manager2"} -> IF FoundInIndex THEN gate ELSE TRUE
                                                     \* relative entry: no owner found, WithURL(chart URL), repo credentials
 
-FetchIndex ==
-  /\ pc = "index"
-  /\ reqs' = Append(reqs, [kind |-> "index", url |-> cfg.repo, auth |-> TRUE])
-  /\ pc' = "chart"
-  /\ UNCHANGED cfg
+\* the request flow of the case, as a sequence of steps
+PrivSteps == <<"chart">> \o (IF cfg.redirect THEN <<"redirected">> ELSE <<>>)
+                        \o (IF FetchesProv(cfg.path) THEN <<"prov">> ELSE <<>>)
+PubSteps  == <<"pubchart", "pubprov">>
+Flow == (IF NeedsIndexFetch(cfg.path) THEN <<"index">> ELSE <<>>)
+        \o (IF cfg.path = "manager2" THEN <<"pubindex">> ELSE <<>>)
+        \o (IF cfg.path # "manager2" THEN PrivSteps
+            ELSE IF cfg.order = "privfirst" THEN PrivSteps \o PubSteps ELSE PubSteps \o PrivSteps)
 
-FetchChart ==
-  /\ pc = "chart"
-  /\ reqs' = Append(reqs, [kind |-> "chart", url |-> Chart, auth |-> ChartAuth])
-  /\ pc' = IF cfg.redirect THEN "redirect" ELSE IF FetchesProv(cfg.path) THEN "prov" ELSE "done"
-  /\ UNCHANGED cfg
+ReqOf(step) ==
+  CASE step = "index"      -> [kind |-> "index", url |-> cfg.repo, auth |-> TRUE]
+    [] step = "chart"      -> [kind |-> "chart", url |-> Chart, auth |-> ChartAuth]
+    [] step = "redirected" -> [kind |-> "redirected", url |-> RedirTarget, auth |-> ChartAuth /\ RelatedDomain(Chart, RedirTarget)]
+    [] step = "prov"       -> [kind |-> "prov", url |-> Chart, auth |-> ChartAuth]
+    [] step = "pubindex"   -> [kind |-> "index", url |-> PublicRepo, auth |-> FALSE]   \* no credentials are configured for it
+    [] step = "pubchart"   -> [kind |-> "chart", url |-> PublicRepo, auth |-> FALSE]
+    [] step = "pubprov"    -> [kind |-> "prov", url |-> PublicRepo, auth |-> FALSE]
 
-FollowRedirect ==
-  /\ pc = "redirect"
-  /\ reqs' = Append(reqs, [kind |-> "redirected", url |-> RedirTarget,
-                           auth |-> ChartAuth /\ RelatedDomain(Chart, RedirTarget)])
-  /\ pc' = IF FetchesProv(cfg.path) THEN "prov" ELSE "done"
-  /\ UNCHANGED cfg
+Done == pc > Len(Flow)
 
-FetchProv ==
-  /\ pc = "prov"
-  /\ reqs' = Append(reqs, [kind |-> "prov", url |-> Chart, auth |-> ChartAuth])
-  /\ pc' = "done"
-  /\ UNCHANGED cfg
+Send == /\ ~Done
+        /\ reqs' = Append(reqs, ReqOf(Flow[pc]))
+        /\ pc' = pc + 1
+        /\ UNCHANGED cfg
 
-Next == FetchIndex \/ FetchChart \/ FollowRedirect \/ FetchProv
+Next == Send
 Spec == Init /\ [][Next]_vars
 
 (* ----- the property on the model's own requests ---------------------------- *)
@@ -144,19 +160,22 @@ Inv_WrittenImpliesOrigin == SameWritten(cfg.repo, Chart) => Origin(cfg.repo) = O
 (* ----- export ---------------------------------------------------------------- *)
 
 PathNo(p) == CASE p = "getter" -> 1 [] p = "dl_name" -> 2 [] p = "dl_url" -> 3 [] p = "locate" -> 4
-               [] p = "pull" -> 5 [] p = "manager" -> 6
+               [] p = "pull" -> 5 [] p = "manager" -> 6 [] p = "manager2" -> 7
 VarNo(v) == CASE v = "rel" -> 1 [] v = "same" -> 2 [] v = "path" -> 3 [] v = "scheme" -> 4 [] v = "host" -> 5
               [] v = "sub" -> 6 [] v = "suffix" -> 7 [] v = "port" -> 8 [] v = "case" -> 9 [] v = "user" -> 10
               [] v = "userhost" -> 11 [] v = "defport" -> 12
 RepoNo(r) == (IF r.scheme = "https" THEN 1 ELSE 0) + 2 * (IF r.port = 0 THEN 0 ELSE IF r.port = 8080 THEN 1 ELSE 2)
-CaseNo == ((((PathNo(cfg.path) * 16 + VarNo(cfg.variant)) * 8 + RepoNo(cfg.repo)) * 2
-            + (IF cfg.passAll THEN 1 ELSE 0)) * 2 + (IF cfg.redirect THEN 1 ELSE 0))
+TLSNo(t) == CASE t = "none" -> 0 [] t = "ca" -> 1 [] t = "cert" -> 2 [] t = "insecure" -> 3
+OrderNo(o) == CASE o = "single" -> 0 [] o = "privfirst" -> 1 [] o = "pubfirst" -> 2
+CaseNo == ((((((PathNo(cfg.path) * 16 + VarNo(cfg.variant)) * 8 + RepoNo(cfg.repo)) * 2
+            + (IF cfg.passAll THEN 1 ELSE 0)) * 2 + (IF cfg.redirect THEN 1 ELSE 0)) * 4 + TLSNo(cfg.tls)) * 3 + OrderNo(cfg.order))
 
 Export ==
-  IF pc = "done"
+  IF Done
   THEN JsonSerialize("gen/k" \o ToString(CaseNo) \o ".json",
          [id |-> CaseNo, path |-> cfg.path, repo |-> cfg.repo, variant |-> cfg.variant, relative |-> Relative(cfg.variant),
           chart |-> Chart, passAll |-> cfg.passAll, redirect |-> cfg.redirect, target |-> RedirTarget,
+          tls |-> cfg.tls, order |-> cfg.order, public |-> PublicRepo,
           model |-> reqs, modelOK |-> ModelOK, crossOrigin |-> Origin(Chart) # Origin(cfg.repo)])
   ELSE TRUE
 =============================================================================
